@@ -171,6 +171,100 @@ def check_hull(F, run, b, loop):
                       sample="middle' = %s with (left', right') = (%s, %s)" % (e, l2, r2))
 
 
+class HullInterp(guards.GInterp):
+    """Loop body of Brent / ITP with the non-linear quantities re-bound to free symbols (instance table REBIND)."""
+    REBIND = {}
+
+    def bind(self, pat, val, node=None):
+        if pat.get("k") == "Bind" and pat["name"] in self.REBIND:
+            self.recorded = getattr(self, "recorded", {})
+            self.recorded[pat["name"]] = val
+            val = self.REBIND[pat["name"]]
+        return guards.GInterp.bind(self, pat, val, node)
+
+    def assign(self, lhs, val, node):
+        l = peel(lhs)
+        if l.get("k") == "Local" and l["name"] in self.REBIND and hasattr(val, "free_symbols") and not (val.free_symbols <= {sym.S("left"), sym.S("right")}):
+            self.recorded = getattr(self, "recorded", {})
+            self.recorded.setdefault(l["name"], []).append(val) if isinstance(self.recorded.get(l["name"], []), list) else None
+            val = self.REBIND[l["name"]]
+        return guards.GInterp.assign(self, lhs, val, node)
+
+
+def in_hull(x, a, b):
+    return sp.Or(sp.And(sp.Le(a, x), sp.Le(x, b)), sp.And(sp.Le(b, x), sp.Le(x, a)))
+
+
+def check_hull_brent_itp(F, run, name, b, loop):
+    """R7.2 for Brent / ITP: every abscissa handed to f inside the loop lies in the hull of the current bracket, by linear
+    arithmetic (Fourier–Motzkin) over the path condition of each path of one iteration."""
+    from bsa import logic
+    dp = FNS[name]
+    L, R = sym.S("left"), sym.S("right")
+    consts = constant_locals(F, b)
+    if name == "itp":
+        XF, DELTA, RR = sym.S("XF"), sym.S("DELTA"), sym.S("RR")
+        rebind = {"x_f": XF, "delta": DELTA, "r": RR}
+        assume = [sp.Ge(DELTA, 0), sp.Ge(RR, 0)]
+        hull_syms = [XF]
+    else:
+        S0 = sym.S("S_interp")
+        rebind = {"s": S0}
+        assume = []
+        hull_syms = []
+
+    class HI(HullInterp):
+        REBIND = rebind
+    vals = dict(consts)
+    vals.update({k: v for k, v in rebind.items() if name != "brent"})
+    try:
+        lps = paths.explore(F, b, setup=preset_all(b, consts), node=loop["body"], interp_cls=HI, limit=512)
+    except sym.Unsupported as u:
+        run.broken("R7.2", dp, "iteration-hull", F.loc(b, loop), "cannot interpret the loop body: %s" % u)
+        return
+    n_calls = 0
+    for p in lps:
+        it = p.interp
+        # the regula-falsi point is in the hull when the end values have opposite signs (lemma); check that x_f *is* that point
+        if name == "itp":
+            rec = getattr(it, "recorded", {})
+            f = it.fn_atom("f")
+            fl, fr = sym.S("f_left"), sym.S("f_right")
+            want = (fr * L - fl * R) / (fr - fl)
+            run.check("x_f" in rec and sym.is_zero(rec["x_f"] - want), "R7.2", dp, "x_f-is-regula-falsi", F.loc(b, loop),
+                      "x_f is %s, not the regula-falsi point (f_r·l − f_l·r)/(f_r − f_l) (which lies in the bracket when the end values have opposite signs)" % rec.get("x_f"))
+        for pl, args, node, v in it.calls:
+            n_calls += 1
+            x = args[0]
+            # relevance filter (sound: dropping hypotheses only weakens them): keep the conjuncts of the path condition that speak
+            # about the bracket, the trial point and the re-bound quantities only
+            relevant = {L, R} | set(x.free_symbols) | set(hull_syms) | set(rebind.values()) | {sym.S("x_half")}
+            pc = []
+            stack = [sp.to_nnf(c, simplify=False) if isinstance(c, sp.Basic) else c for c in p.pc]
+            while stack:
+                c = stack.pop()
+                if isinstance(c, sp.And):
+                    stack.extend(c.args)
+                    continue
+                if isinstance(c, sp.Basic) and not isinstance(c, sp.Symbol) and c.free_symbols and c.free_symbols <= relevant and not c.atoms(sp.core.function.AppliedUndef):
+                    pc.append(c)
+            ok = True
+            for order in (sp.Le(L, R), sp.Le(R, L)):
+                hyp = [order] + assume + [in_hull(h, L, R) for h in hull_syms] + pc
+                g = sp.And(*hyp)
+                tgt = sp.And(sp.Le(sp.Min(L, R), x), sp.Le(x, sp.Max(L, R)))
+                lo, hi = (L, R) if order.lhs == L else (R, L)
+                tgt = sp.And(sp.Le(lo, x), sp.Le(x, hi))
+                if not logic.lin_entails(g, tgt):
+                    ok = False
+            inst = "[x=%s]" % str(x).replace(" ", "")[:60]
+            run.check(ok, "R7.2", dp, "eval-in-hull" + inst, F.loc(b, node),
+                      "on the path %s of one iteration f is evaluated at %s, which the path condition does not confine to the closed bracket [left, right]: "
+                      "the truncation/projection safeguard does not keep the trial point inside" % (inst, str(x)[:80]),
+                      sample="%s path %s: f(%s) in hull(left, right)" % (name, inst, str(x)[:50]))
+    run.floor("R7.2", dp, "function evaluations over the paths of one iteration", n_calls, 2, F.loc(b, loop))
+
+
 def check_success_criterion(F, run, name, b):
     dp = FNS[name]
     fv = fvalue_locals(b)
@@ -371,6 +465,8 @@ def run(F, run, tier):
         if name == "bisection":
             check_hull(F, run, b, loop)
             check_counter_loop(F, run, b, loop)
+        else:
+            check_hull_brent_itp(F, run, name, b, loop)
     n_nan = check_nan_idiom(F, run)
     check_sign_three_way(F, run)
     run.extra["sign_by_division_sites"] = n_nan
